@@ -195,6 +195,9 @@ def _run_case(case, ctx):
             same_everything("whitespace", progs.render(p, ws_fn=lambda: r.choice([" ", "  ", "\t", " \t ", "      "])))
         else:
             same_everything("whitespace", progs.render(p, ws=ws))
+    # --- line endings and trailing blanks (files that went through another editor or operating system)
+    same_everything("whitespace", [l.rstrip("\n") + r.choice(["", " ", "\t", "   "]) + "\n" for l in base_lines])
+    same_everything("whitespace", [l.rstrip("\n") + "\r\n" for l in base_lines])
     # --- comments
     same_everything("comments", progs.render(p, comments=lambda i: r.choice([" a comment", "X,Y+1 #$FF", " LDA #1 ; nested ; semicolons", "", " [A,B] \"quoted\" 'c"])))
     same_everything("comments", progs.render(p, comments=lambda i: ""))
